@@ -536,13 +536,79 @@ def run_live(ctx, cfg, script=None, record=True, reduced=False):
                 got[reader] += r[1]        # (nothing is pending when this is called)
         ctx.count("live:keyupdates")
 
+    front = {"client": bytearray(), "server": bytearray()}    # pushed back with unread(), not read again yet
+    files = {}
+
+    def account(who, r):
+        """bytes handed to the application: pushed-back bytes come first and unchanged, the rest is new stream data"""
+        k = min(len(r), len(front[who]))
+        if bytes(r[:k]) != bytes(front[who][:k]):
+            viol("c01:unread-data-changed", "%s re-read %d pushed-back bytes and they differ from what was unread()" % (who, k))
+        del front[who][:k]
+        src0 = peer[who]
+        n0 = len(got[who])
+        if bytes(r[k:]) != bytes(written[src0][n0:n0 + len(r) - k]):
+            viol("c01:data-mismatch", "bytes read by %s are not the next bytes written by %s (stream offset %d, first difference at +%d)"
+                 % (who, src0, n0, first_diff(r[k:], written[src0][n0:n0 + len(r) - k])))
+        got[who] += r[k:]
+
+    def do_unread(who, b, form="bytes"):
+        """conn.unread(b): the bytes go back in front of the read buffer"""
+        ops.append(("u", who, bytes(b).hex(), form))
+        obj = bytearray(b) if form == "bytearray" else bytes(b)
+        try:
+            conns[who].unread(obj)
+        except Exception as e:  # noqa: B902
+            viol("c01:unread-failed", "unread(%s of %d bytes) raised %s: %s" % (form, len(b), type(e).__name__, e))
+            return
+        front[who][:0] = bytes(b)
+        fifo_ops.append("u%s:%s" % ("A" if who == "client" else "B", hx(b)))
+        fifo_exp.append(("u", None))
+        ctx.count("live:unread")
+
+    def avail(who):
+        """what a blocking read can still get without the peer doing anything"""
+        return bytes(front[who]) + bytes(written[peer[who]][len(got[who]):])
+
+    def do_file_read(who, kind, n=0):
+        """socket emulation: conn.makefile('rb').read(n) / .readline() (blocking calls: only when the data is there)"""
+        a = avail(who)
+        if not a or (kind == "line" and b"\n" not in a):
+            return
+        ops.append(("f", who, kind, n))
+        f = files.get(who)
+        if f is None:
+            f = files[who] = conns[who].makefile("rb")
+        letter = "A" if who == "client" else "B"
+        try:
+            r = f.readline() if kind == "line" else f.read(n)
+        except Exception as e:  # noqa: B902
+            viol("c01:read-failed", "makefile('rb').%s on an honest connection raised %s: %s"
+                 % ("readline()" if kind == "line" else "read(%d)" % n, type(e).__name__, e))
+            return
+        r = bytes(r or b"")
+        if kind == "line":
+            want = a[:a.index(b"\n") + 1]
+            if r != want:
+                viol("c01:data-mismatch", "readline() returned %d bytes, the stream has a %d byte line" % (len(r), len(want)))
+            for i in range(len(r)):          # RawIOBase.readline reads byte by byte
+                fifo_ops.append("r%s:1:1" % letter)
+                fifo_exp.append(("d", r[i:i + 1]))
+        else:
+            if len(r) > n or not r:
+                viol("c01:read-more-than-max", "file read(%d) returned %d bytes" % (n, len(r)))
+            fifo_ops.append("r%s:%d:1" % (letter, n))
+            fifo_exp.append(("d", r))
+        account(who, r)
+        ctx.count("live:file-reads")
+
     def do_read(who, mx, mn):
         res = L.read(who, max=mx, min=mn)
         ops.append(("r", who, mx, mn))
         letter = "A" if who == "client" else "B"
         fifo_ops.append("r%s:%s:%d" % (letter, "n" if mx is None else str(mx), mn))
         if res[0] == "ok":
-            got[who] += res[1]
+            account(who, res[1])
             fifo_exp.append(("d", bytes(res[1])))
             if mx is not None and len(res[1]) > mx:
                 viol("c01:read-more-than-max", "read(max=%d) returned %d bytes" % (mx, len(res[1])))
@@ -551,10 +617,6 @@ def run_live(ctx, cfg, script=None, record=True, reduced=False):
         else:
             fifo_exp.append(("error", None))
             viol("c01:read-failed", "read(max=%r, min=%d) on an honest connection raised %s" % (mx, mn, R.lab.exc_class(res[1])))
-        src = peer[who]
-        if bytes(got[who]) != bytes(written[src][:len(got[who])]):
-            viol("c01:data-mismatch", "bytes read by %s are not a prefix of the bytes written by %s (first difference at %d)"
-                 % (who, src, first_diff(got[who], written[src])))
 
     def drain(who):
         """read everything the peer has written so far through random (max, min) calls"""
@@ -609,6 +671,39 @@ def run_live(ctx, cfg, script=None, record=True, reduced=False):
                     do_read(who, rng.choice([None, 3, 1000]), rng.choice([0, 1, 2]))
             for who in order:
                 drain(who)
+        # read-side API mixes: peek and push back (unread with bytes / bytearray, empty, part of, all of and more than
+        # what was read), reads around it, and the socket-emulation file object (read(n), readline())
+        for who in ("client", "server"):
+            src = peer[who]
+            nconn = ctx.dist.get("live:connections", 0)      # rotates the variants over the connections
+            for rnd in range(nconn, nconn + (1 if not ctx.thorough() else 4)):
+                if failed[0]:
+                    break
+                line = rb(rng, rng.randrange(0, 20)).replace(b"\n", b"x") + b"\n"
+                do_write(src, rb(rng, rng.choice([1, 9, 40])).replace(b"\n", b"y") + line + rb(rng, rng.randrange(1, 30)))
+                n = rng.choice([1, 3, 8])
+                do_read(who, n, 1)
+                last = bytes(fifo_exp[-1][1]) if fifo_exp[-1][0] == "d" else b""
+                choice = (rnd + (who == "server")) % 4
+                form = ("bytes", "bytearray")[(rnd + rng.randrange(2)) % 2]
+                if choice == 0:
+                    do_unread(who, last, "bytes")                 # all of it, as bytes: the peek-and-push-back idiom
+                elif choice == 1:
+                    do_unread(who, last[len(last) // 2:], form)   # part of it
+                elif choice == 2:
+                    do_unread(who, b"", form)
+                    do_unread(who, b"sniffed:" + last, form)      # more than what was read
+                else:
+                    do_unread(who, last, "bytearray")
+                    do_unread(who, b"", "bytes")
+                do_read(who, rng.choice([None, 1, 5, 1000]), rng.choice([0, 1, 2]))
+                do_read(who, rng.choice([2, 7]), 1)
+                do_file_read(who, "read", rng.choice([1, 4, 64]))
+                do_file_read(who, "line")
+                do_read(who, None, 0)
+                if fifo_exp and fifo_exp[-1][0] == "d":
+                    do_unread(who, bytes(fifo_exp[-1][1])[-3:], "bytes")
+                drain(who)
         # the application changes recordSize: between writes, and while a write is suspended on a would-block
         slow = cfg["cipher"] in R.SLOW
         rnd0 = rng.randrange(2)
@@ -661,6 +756,10 @@ def run_live(ctx, cfg, script=None, record=True, reduced=False):
                 set_size(op[1], op[2])
             elif op[0] == "ku":
                 do_keyupdate(op[1], op[2])
+            elif op[0] == "u":
+                do_unread(op[1], bytes.fromhex(op[2]), op[3])
+            elif op[0] == "f":
+                do_file_read(op[1], op[2], op[3])
             elif op[0] == "ws":
                 data = bytes.fromhex(op[3]) if op[3] is not None else rb(rng, op[2])
                 do_write_suspended(op[1], data, op[4], op[5])
